@@ -205,6 +205,36 @@ func (s *upServer) UploadSaveBigFilePart(ctx context.Context, r *tg.UploadSaveBi
 	return s.call(true, r.FileID, r.FilePart, r.FileTotalParts, r.Bytes)
 }
 
+// upSwitch lets one Uploader talk to different servers in turn.
+type upSwitch struct {
+	cur interface {
+		UploadSaveFilePart(ctx context.Context, r *tg.UploadSaveFilePartRequest) (bool, error)
+		UploadSaveBigFilePart(ctx context.Context, r *tg.UploadSaveBigFilePartRequest) (bool, error)
+	}
+}
+
+func (s *upSwitch) UploadSaveFilePart(ctx context.Context, r *tg.UploadSaveFilePartRequest) (bool, error) {
+	return s.cur.UploadSaveFilePart(ctx, r)
+}
+
+func (s *upSwitch) UploadSaveBigFilePart(ctx context.Context, r *tg.UploadSaveBigFilePartRequest) (bool, error) {
+	return s.cur.UploadSaveBigFilePart(ctx, r)
+}
+
+// upPrior serves the upload that precedes the one under test.
+type upPrior struct{ fail bool }
+
+func (p *upPrior) UploadSaveFilePart(ctx context.Context, r *tg.UploadSaveFilePartRequest) (bool, error) {
+	if p.fail {
+		return false, tgerr.New(400, "FILE_PART_INVALID")
+	}
+	return true, nil
+}
+
+func (p *upPrior) UploadSaveBigFilePart(ctx context.Context, r *tg.UploadSaveBigFilePartRequest) (bool, error) {
+	return p.UploadSaveFilePart(ctx, nil)
+}
+
 // ---- one upload ----
 
 type upCfg struct {
@@ -221,11 +251,15 @@ type upCfg struct {
 	BgSeed  uint64
 	Latency bool
 	FileID  int64
+	// Prior: an upload made with the same Uploader before the one under test:
+	// "" none, "failed" a small upload the server refused after its first part,
+	// "ok" a small upload that went through
+	Prior string
 }
 
 func (c upCfg) String() string {
-	return fmt.Sprintf("size=%d known=%v part=%d thr=%d maxRead=%d eofWith=%v faults=%v bg=%d/%x lat=%v",
-		c.Size, c.Known, c.Part, c.Threads, c.MaxRead, c.EOFWith, c.Faults, c.BgRate, c.BgSeed, c.Latency)
+	return fmt.Sprintf("size=%d known=%v part=%d thr=%d maxRead=%d eofWith=%v faults=%v bg=%d/%x lat=%v prior=%q",
+		c.Size, c.Known, c.Part, c.Threads, c.MaxRead, c.EOFWith, c.Faults, c.BgRate, c.BgSeed, c.Latency, c.Prior)
 }
 
 const upName = "verif.bin"
@@ -241,8 +275,20 @@ func runUpload(c upCfg) (*upServer, tg.InputFileClass, error) {
 		srv.faults[[2]int{f.Part, f.Attempt}] = f
 	}
 	src := &genSource{seed: c.Seed, size: c.Size, maxRead: c.MaxRead, rseed: c.RSeed, eofWith: c.EOFWith, eofSeen: eof}
-	u := uploader.NewUploader(srv).WithThreads(c.Threads).
+	sw := &upSwitch{}
+	u := uploader.NewUploader(sw).WithThreads(c.Threads).
 		WithIDGenerator(func() (int64, error) { return c.FileID, nil })
+	if c.Prior != "" {
+		// an Uploader is made once and used for many files: whatever an earlier
+		// upload left behind (a failed one in particular) is not part of this one
+		sw.cur = &upPrior{fail: c.Prior == "failed"}
+		psrc := &genSource{seed: c.Seed ^ 0x9e37, size: 3000, maxRead: 1 << 20, rseed: 1, eofWith: true, eofSeen: new(atomic.Bool)}
+		_, perr := u.Upload(context.Background(), uploader.NewUpload("prior.bin", psrc, 3000))
+		if (perr != nil) != (c.Prior == "failed") {
+			return srv, nil, fmt.Errorf("harness: prior upload (%s) ended with %v", c.Prior, perr)
+		}
+	}
+	sw.cur = srv
 	if c.Part != 0 {
 		u = u.WithPartSize(c.Part)
 	}
@@ -602,6 +648,10 @@ func genUpCfg(t *rapid.T) (upCfg, []string) {
 	}
 	c.BgSeed = rapid.Uint64().Draw(t, "bgSeed")
 	c.Latency = rapid.Bool().Draw(t, "latency")
+	c.Prior = rapid.SampledFrom([]string{"", "", "failed", "failed", "ok"}).Draw(t, "priorUpload")
+	if c.Prior != "" {
+		classes = append(classes, "prior-upload="+c.Prior)
+	}
 	return c, classes
 }
 
